@@ -20,7 +20,15 @@ per revision its inventory (id ↦ attributes + last-changed revision) and the n
 text keys `(file id, revision)` with their per-file parents.
 
 Revisions, file ids, names and contents are naturals (the harness numbers the
-real ones); the root directory is an ordinary file id (rich-root formats).
+real ones); the root directory is an ordinary file id (rich-root formats; for
+the non-rich-root formats the harness leaves the root out, it is not a text key
+there).  A parent that is not recorded is a *ghost*.
+
+`codeRecordOne` / `mkRecB` model the `merged_ids` / `parent_entries` /
+`changes` / `unchanged_merged` bookkeeping of `record_iter_changes` literally
+(only ids that `iter_changes` reports or whose entry in a later parent differs
+from the basis entry are processed; everything else keeps the basis entry);
+`Props/C02.lean` proves it equal to `recordOne` / `mkRec`.
 Core Lean only.
 -/
 namespace BreezyVerif.C02
@@ -168,10 +176,17 @@ def ranc : State → Rev → List Rev
   | r :: older, x =>
     if r.id = x then r.parents ++ r.parents.flatMap (fun p => ranc older p) else ranc older x
 
-/-- a commit the front end can make on `st`: fresh id, parents present, one
-entry per file id -/
+/-- every revision id the repository knows or names: the recorded revisions and
+all their parents, ghosts included -/
+def mentioned (st : State) : List Rev := ids st ++ st.flatMap (·.parents)
+
+/-- a commit the front end can make on `st`: a revision id that is neither
+recorded nor named as a parent by any recorded revision (a ghost stays a ghost)
+nor by the commit itself, and one entry per file id.  Parents need **not** be
+present: an absent parent is a ghost (`invOf … = none`, the code uses the empty
+NULL tree for it). -/
 def okCommit (st : State) (c : Commit) : Prop :=
-  c.id ∉ ids st ∧ (∀ p ∈ c.parents, p ∈ ids st) ∧ (c.tree.map (·.1)).Nodup
+  c.id ∉ mentioned st ∧ c.id ∉ c.parents ∧ (c.tree.map (·.1)).Nodup
 
 instance (st : State) (c : Commit) : Decidable (okCommit st c) := by
   unfold okCommit; infer_instance
